@@ -2,7 +2,8 @@ import MemVerif.Lemmas.C01CollArr
 import MemVerif.Props.C01Coll
 /-!
 C01 for `memory_pool_collection` over the intrusive free lists, **node and array operations**
-(`allocate_node`, `try_allocate_node`, `deallocate_node`, `allocate_array`, `try_allocate_array`, `deallocate_array`),
+(`allocate_node`, `try_allocate_node`, `deallocate_node`, `allocate_array`, `try_allocate_array`, `deallocate_array`,
+`reserve`),
 every history, every bucket policy, every configuration (fence size up to `2^32`).
 
 The ledger is a list of cells: a node is one cell, an array of `k` cells of its bucket is entered as its `k` consecutive
@@ -18,22 +19,23 @@ open MemVerif.Model MemVerif.Gen
 
 /-- **C01 (invariant), collections, node and array operations.** -/
 theorem C01_coll_array_invariant_partial (cfg : Cfg) (e : EnvS) (arr arrLen : Nat) (hf : cfg.fence ≤ 2 ^ 32) (g : GCollA) (k : Nat)
-    (ops : List COpA) (hI : CInv arr arrLen g.c g.live) (henv : BlocksOk (g.run cfg e k ops).1.c.arena.used) :
+    (ops : List COpA) (hfit : ∀ op ∈ ops, op.Fits) (hI : CInv arr arrLen g.c g.live)
+    (henv : BlocksOk (g.run cfg e k ops).1.c.arena.used) :
     CInv arr arrLen (g.run cfg e k ops).1.c (g.run cfg e k ops).1.live :=
-  GCollA.run_inv cfg e hf ops g k hI henv
+  GCollA.run_inv cfg e hf ops g k hfit hI henv
 
 /-- **C01 (live allocations), collections, node and array operations**: at the end of any history — hence at every
 point — all cells the caller holds (nodes and the cells of arrays) are pairwise disjoint, apart from every free cell of
 every bucket and from the list array, and inside held blocks. -/
 theorem C01_coll_array_live_disjoint_inside_partial (cfg : Cfg) (e : EnvS) (arr arrLen : Nat) (hf : cfg.fence ≤ 2 ^ 32)
-    (g : GCollA) (k : Nat) (ops : List COpA) (hI : CInv arr arrLen g.c g.live)
+    (g : GCollA) (k : Nat) (ops : List COpA) (hfit : ∀ op ∈ ops, op.Fits) (hI : CInv arr arrLen g.c g.live)
     (henv : BlocksOk (g.run cfg e k ops).1.c.arena.used) :
     let g' := (g.run cfg e k ops).1
     (g'.live.map fun as => (as.1, g'.c.nsOf as.2)).Pairwise (fun r s => r.1 + r.2 ≤ s.1 ∨ s.1 + s.2 ≤ r.1) ∧
     (∀ as ∈ g'.live, ∃ b ∈ g'.c.arena.used, b.usable.base ≤ as.1 ∧ as.1 + g'.c.nsOf as.2 ≤ b.usable.base + b.usable.size) ∧
     (∀ as ∈ g'.live, ∀ l ∈ g'.c.lists, ∀ x ∈ l.cells, as.1 + g'.c.nsOf as.2 ≤ x ∨ x + l.nodeSize ≤ as.1) ∧
     (∀ as ∈ g'.live, as.1 + g'.c.nsOf as.2 ≤ arr ∨ arr + arrLen ≤ as.1) :=
-  C01Coll.live_facts (g := ⟨(g.run cfg e k ops).1.c, (g.run cfg e k ops).1.live⟩) (GCollA.run_inv cfg e hf ops g k hI henv)
+  C01Coll.live_facts (g := ⟨(g.run cfg e k ops).1.c, (g.run cfg e k ops).1.live⟩) (GCollA.run_inv cfg e hf ops g k hfit hI henv)
 
 /-- **An array is whole and contiguous**: the cells entered for an array of `count * size` bytes at `a` are the
 `ceil(count*size / ns)` (one, if it fits a node) consecutive cells `a, a + ns, …` of its bucket — together at least
@@ -70,7 +72,8 @@ def demo : Bool :=
   let cfg : Cfg := { fence := 8, dblDealloc := true, assert := true }
   let e : EnvS := fun k => if k = 0 then some 4096 else if k = 1 then some 65536 else if k = 2 then some 300000 else none
   let ops : List COpA := [.allocArray 3 16, .node (.allocNode 16), .allocArray 5 24, .tryAllocArray 2 16, .deallocArray 2,
-    .allocArray 40 16, .node (.allocNode 24), .deallocArray 0, .allocArray 4 8, .node (.dealloc 0), .tryAllocArray 1000 8]
+    .allocArray 40 16, .node (.allocNode 24), .deallocArray 0, .allocArray 4 8, .node (.dealloc 0), .tryAllocArray 1000 8,
+    .reserve 20 500]
   match Coll.create cfg (.growing 2 1 2000) "ord" .identity true 24 [e 0] with
   | (some c0, _, _) =>
     let g := (GCollA.run cfg e { c := c0 } 1 ops).1
